@@ -402,7 +402,7 @@ func (c *Ctx) buildUnitsBase(gs []*gast.Grammar, flagSets [][]string, race bool,
 		u.Gen = c.W.Gen(u.Text, u.Flags...)
 		if u.Gen.Exit != 0 {
 			u.Fail = fmt.Sprintf("pigeon exit %d: %s", u.Gen.Exit, firstLine(u.Gen.Stderr))
-		} else if u.G.UsesState && u.HasFlag("-optimize-parser") && !bytes.Contains(u.Gen.Stdout, []byte("statePool")) {
+		} else if u.G.UsesState && u.HasFlag("-optimize-parser") && u.HasFlag("-optimize-grammar") && !bytes.Contains(u.Gen.Stdout, []byte("statePool")) {
 			// -optimize-grammar removed every rule with a state block, so -optimize-parser dropped the
 			// state store that the harness' blocks still read: documented behaviour, not a finding
 			u.Skip = true
